@@ -360,7 +360,7 @@ def _files():
 
 
 def plan(tier):
-    n = 40 if tier == 'quick' else 2500
+    n = 40 if tier == 'quick' else 1000
     return [{'n': n, 'part': i} for i in range(16)]
 
 
